@@ -311,11 +311,21 @@ Definition check_dev (ch : list stree) (f : list (string * sval)) : bool :=
 Definition is_null (v : jv) : bool := match v with JNull => true | _ => false end.
 Definition starts_nlopt (s : string) : bool := String.eqb (substring 0 5 s) "nlopt".
 
+(* python truthiness (`if self.developer_mode:`); on the bool fields it is applied to it is the value itself *)
+Definition truthy (v : jv) : bool :=
+  match v with
+  | JNull => false
+  | JBool b => b
+  | JNum q => negb (Qeq_bool q 0)
+  | JStr s => negb (String.eqb s "")
+  | JList l => match l with [] => false | _ => true end
+  | JObj kvs => match kvs with [] => false | _ => true end
+  | JInst _ _ => true
+  end.
 Definition v_devmode (gov : list stree) (f : list (string * sval)) : option reason :=
   match get_leaf "developer_mode" f with
-  | Some (JBool true) => None
-  | Some (JBool false) => if check_dev gov f then None else Some RDeveloper
-  | _ => Some RCrash
+  | Some v => if truthy v then None else if check_dev gov f then None else Some RDeveloper
+  | None => Some RCrash
   end.
 
 Definition v_alpha_final (f : list (string * sval)) : option reason :=
@@ -361,8 +371,17 @@ Definition v_init_step (f : list (string * sval)) : option reason :=
 Definition v_reduce_std (f : list (string * sval)) : option reason :=
   match get_leaf "reduce_splits_num_std" f with
   | Some JNull => None
-  | Some (JList [JNum a; JNum b]) => if Qle_bool a 0 || Qle_bool b 0 then Some RCross else None
-  | Some (JList _) => Some RCross
+  | Some (JList l) =>
+      if negb (Nat.eqb (List.length l) 2) then Some RCross
+      else match l with
+           | [JNum a; y] =>
+               if Qle_bool a 0 then Some RCross
+               else match y with
+                    | JNum b => if Qle_bool b 0 then Some RCross else None
+                    | _ => Some RCrash            (* not reachable: list[float] *)
+                    end
+           | _ => Some RCrash                     (* not reachable *)
+           end
   | _ => Some RCrash
   end.
 
